@@ -138,6 +138,15 @@ def make_invalid(rng, n, edges, only=None):
             if not cands:
                 v = rng.randrange(n); out.insert(pos, (v, v, '1')); kinds.add('loop'); continue
             u, v, w = rng.choice(cands)
+            if rng.random() < 0.6:
+                # an edge whose end points both carry other edges, and the copy as far from the original as the file allows,
+                # so that the two copies are not neighbours in either adjacency list
+                deg = {}
+                for a_, b_, c_ in out:
+                    deg[a_] = deg.get(a_, 0) + 1; deg[b_] = deg.get(b_, 0) + 1
+                best = max(min(deg[t[0]], deg[t[1]]) for t in cands)
+                u, v, w = rng.choice([t for t in cands if min(deg[t[0]], deg[t[1]]) == best])
+                i = out.index((u, v, w)); pos = len(out) if i < len(out) / 2.0 else 0
             if rng.random() < 0.5: u, v = v, u
             out.insert(pos, (u, v, str(rng.randint(1, 5)))); kinds.add('parallel')
         elif n >= 2:
